@@ -66,9 +66,13 @@ def _setup(sx, kind, V, mode, attr_weights=False):
     if mode == "custom":
         w = [sx.real("w%d" % i, 0) for i in range(len(E))]
         if attr_weights:
+            # a sparse edge attribute: entries that were never written read as the attribute's default (0.0) and count as such
             arg = mesh.edges.create_attribute("w", float)
             for i, wi in enumerate(w):
-                arg[i] = wi
+                if sx.flag("weight_written%d" % i):
+                    arg[i] = wi
+                else:
+                    w[i] = 0.0
         else:
             arg = {i: w[i] for i in range(len(E))}
     elif mode == "one":
@@ -185,12 +189,12 @@ def single_target(kind, V, attr_weights=False, modes=(0, 1, 2), forms=(0, 1, 2),
     return h
 
 
-def vertex_set(kind, V, border=False, modes=(0, 1, 2), forms=(0, 1), exports=(0, 1), max_set=None):
+def vertex_set(kind, V, border=False, modes=(0, 1, 2), forms=(0, 1), exports=(0, 1), max_set=None, attr_weights=False):
     @_with_attr_shim
     def h(sx):
         from mouette.processing import paths as P
         mode = MODES[_pick(sx, "mode", modes)]
-        mesh, n, E, eid, w, arg = _setup(sx, kind, V, mode)
+        mesh, n, E, eid, w, arg = _setup(sx, kind, V, mode, attr_weights)
         start = sx.choice("start", n)
         if border:
             targets = sorted(set(v for e in oracle.border_edges([tuple(f) for f in mesh.faces]) for v in e))
@@ -275,6 +279,10 @@ def obligations(tier):
     for k in (["tri2"] if q else ["tri2", "tri3", "fan4"]):
         obs.append(Ob("border-" + k, vertex_set(k, 0, border=True), covers=COVERS, split=4,
                       note="shortest_path_to_border on " + k))
+    obs.append(Ob("path-attr-poly3", single_target("poly", 3, attr_weights=True, modes=(0,), forms=(0,), exports=(0,)), covers=COVERS, split=6,
+                  note="weights given as a sparse edge Attribute (some entries left at the default), single target"))
+    obs.append(Ob("set-attr-poly3", vertex_set("poly", 3, modes=(0,), exports=(0,), attr_weights=True), covers=COVERS, split=6,
+                  note="weights given as a sparse edge Attribute (some entries left at the default), target sets"))
     obs.append(Ob("border-disk6-length", vertex_set("disk6", 0, border=True, modes=(2,), exports=(0,)), covers=COVERS, split=6,
                   note="shortest_path_to_border in length mode on a disk whose interior start is not adjacent to every border vertex (two symbolic abscissae, four pinned)"))
     return obs
